@@ -85,8 +85,11 @@ def unary(rng, n, family, full=None):
     if op == 'tile':
         return {'op': 'tile', 'reps': rng.randint(1, 3)}
     if op == 'sort':
-        return {'op': 'sort', 'key': rng.choice(['none', 'id', 'neg', 'mod2', 'const']),
-                'rev': rng.random() < 0.5}
+        d = {'op': 'sort', 'key': rng.choice(['none', 'id', 'neg', 'mod2', 'const']),
+             'rev': rng.random() < 0.5}
+        if rng.random() < 0.3:
+            d['sfn'] = 'm3'
+        return d
     if op in ('split', 'shard'):
         sk = rng.randint(0, n + 1)
         return {'op': op, 'sk': sk, 'si': rng.randint(-1, sk)}
@@ -164,6 +167,8 @@ def programs(seed, count, depths=(3, 4, 5, 6), maxlen=3, family='core', payload=
             if rng.random() < 0.7:
                 p = {'op': 'sort', 'key': rng.choice(['none', 'id', 'neg', 'mod2', 'const', 'big', 'biginf']),
                      'rev': rng.random() < 0.5, 'in': p}
+                if p['key'] not in ('big', 'biginf') and rng.random() < 0.35:
+                    p['sfn'] = 'm3'        # a custom sort function
             else:
                 p = {'op': 'group', 'g': rng.choice(['mod2', 'const', 'id', 'fs2', 'mix2']),
                      'sel': rng.choice([0, 1, 2, 3, 7]), 'in': p}
